@@ -1569,6 +1569,21 @@ def forward_class_cases():
     ]
 
 
+# directed family: an include statement nested in a block body; after the block a def inherits from the class A declared in
+# the included file and uses the field A inherits from B (declared before the block): the use resolves only THROUGH the
+# nested include (the quick tier's generator keeps includes at top level)
+def nested_include_cases():
+    inc = {"/w/inc.td": "class A : B;\ndef a0 : A;\n"}
+    out = []
+    for k, (op, cl) in sorted({"let": ("let v = 1 in {", "}"), "foreach": ("foreach i = [1] in {", "}"),
+                               "if": ("if 1 then {", "}"), "defset": ("defset list<B> S = {", "}"),
+                               "let-foreach": ("let v = 2 in {\n foreach i = [1, 2] in {", " }\n}")}.items()):
+        out.append(_marked_case("nested-include-" + k,
+                                "class B { int <D>v</D> = 0; }\n%s\n  include \"inc.td\"\n%s\ndef n : B;\ndef m : A { int w = <U>v</U>; }\n"
+                                % (op, cl), inc))
+    return out
+
+
 # directed family: a LOCAL name (template argument, field, defvar, foreach iterator, multiclass argument) spelled like an
 # EARLIER def / defset: the innermost declaration wins (context.rs resolve_id: the scope chain first, then defs, then
 # defsets), and the program is well-formed (no type diagnostic: the local is an int, the def a record).
